@@ -108,7 +108,8 @@ CHECKS["C16"] = dict(
     level="exploration", design="5 C16",
     technique="runtime monitoring under stress: short concurrent histories on manual-reset events v1/v2 and the auto-reset "
               "event checked at quiescent points (every waiter completes once after a set, none without one, reset only "
-              "affects later waits, values <= set() calls, permanently done), completion-thread check; ASan and TSan builds",
+              "affects later waits, values <= set() calls, permanently done), completion-thread check; tight cancel-vs-set "
+              "races on pre-queued v2 waiters (sub-microsecond jitter); ASan and TSan builds",
     text="Waiters, setters, resetters and (v2) stop requests race on a fresh event per history; the oracle checks "
          "exactly-once completion, no stranded waiter after set(), no completion without set(), behaviour after reset, "
          "value completions on the receiver's scheduler thread; auto-reset event: values never exceed set() calls, done is "
@@ -249,7 +250,8 @@ CHECKS["C10"] = dict(
     technique="runtime monitoring of generated coroutine programs: a task<> plan interpreter (one binary, plans are data) "
               "run under ASan+UBSan with object/frame ledger, counting stop token and poisoned operation arena; offline "
               "comparison of every event log with an executable reference model of task<>; direct log rules for cleanup "
-              "exactly-once / frame exactly-once / nothing-after-completion",
+              "exactly-once / frame exactly-once / nothing-after-completion; handle-ownership probe (overwritten / moved / "
+              "dropped never-started tasks) witnessed by a by-value frame parameter and LeakSanitizer",
     text="Every generated nesting of task<> bodies (await value/error/done leaves, nested tasks, at_coroutine_exit actions, "
          "locals, throw, plain awaitables, stop_if_requested) is executed under every scenario of the stated families with "
          "three receiver token flavours; the observed log - resumption values and contexts, exceptions, done unwinding, "
